@@ -155,7 +155,8 @@ def check(pid, tier, only_cfg=None, quiet=False):
             json.dump({"property": pid, "tier": tier, "obligation": r["name"], "cfg": r["cfg"], "record": r}, f, indent=1, default=str)
         replay_paths.append(path)
 
-    n_obl = len(records)
+    known_recs = {id(r) for _, r in known_hits}
+    n_obl = len([r for r in records if id(r) not in known_recs])
     level = getattr(mod, "LEVEL", "proof")
     functions = sorted({tuple(f) for res in results for f in res["functions"]})
     from engine.hw import file_sha
@@ -182,7 +183,8 @@ def check(pid, tier, only_cfg=None, quiet=False):
         ],
         "configurations": len(results),
         "configuration_list": [res["cfg"] for res in results][:80],
-        "undischarged": [{"name": r["name"], "cfg": r["cfg"], "verdict": r["verdict"]} for r in records if r["verdict"] != "proved"][:20],
+        "undischarged": [{"name": r["name"], "cfg": r["cfg"], "verdict": r["verdict"]} for r in records if r["verdict"] != "proved" and id(r) not in known_recs][:20],
+        "obligations_failing_as_known_findings": len(known_recs),
         "backends": backends,
         "solver_time_s": round(solver_time, 3),
         "max_obligation_time_s": max_obl,
@@ -232,8 +234,13 @@ def check(pid, tier, only_cfg=None, quiet=False):
     p(f"[{pid}] tier={tier} configs={len(results)} obligations={n_obl} discharged={len(proved)} "
       f"unknown={len(unknown)} violated={len(violated)} covers={cover_ok}/{len(covers)} "
       f"bounded={len(bounded)} solver={solver_time:.1f}s wall={time.time() - t0:.1f}s")
+    seen_f = []
     for f_, r in known_hits:
-        print(f"KNOWN-FINDING: property={pid} {f_['what']} [obligation {r['name']} cfg {json.dumps(r['cfg'], default=str)}]")
+        if any(f_ is g for g in seen_f):
+            continue
+        seen_f.append(f_)
+        hits = [rr for ff, rr in known_hits if ff is f_]
+        print(f"KNOWN-FINDING: property={pid} {f_['what']} [{len(hits)} matching obligation(s), e.g. {hits[0]['name']} cfg {json.dumps(hits[0]['cfg'], default=str)}]")
     for r, path in zip(new_violations, replay_paths):
         tr = r.get("trace")
         tail = "" if (tr or r.get("interface_trace") or r.get("bounded_failures")) else " no-failing-input-found"
